@@ -194,6 +194,13 @@ def gen_cases(tier, rng):
     c = pub_prefix().set_chunk_size(0xFFFFFFFF)
     c.raw("a", E.chunk_header(0, 6, 0, 100, E.T_AUDIO, 1) + rb(100))
     yield Case(line(c.bytes()), cls="chunk-size")
+    # ... the same with a message really in progress: 128 of 300 bytes read, Set Chunk Size 0xFFFFFFFF, then a type-0 header
+    # with length 100 on the same chunk stream: needed size = uint32(100 - 128) = 2^32 - 28 (a 4 GiB ReserveBytes)
+    c = pub_prefix()
+    c.raw("a", E.chunk_header(0, 6, 0, 300, E.T_AUDIO, 1) + rb(128))
+    c.raw("scs", E.message(2, E.T_SET_CHUNK, 0, b"\xff\xff\xff\xff"))
+    c.raw("b", E.chunk_header(0, 6, 0, 100, E.T_AUDIO, 1) + rb(500))
+    yield Case(line(c.bytes()), cls="chunk-size")
     # message length 2^24-1 declared on many chunk streams, never completed
     many = b"".join(E.chunk_header(0, 64 + i, 0, 0xFFFFFF, E.T_VIDEO, 1) + rb(128) for i in range(40 if not thorough else 400))
     yield Case(line(pre_tok["pub"] + "+" + data_tok(many)), cls="big-decl")
